@@ -15,6 +15,8 @@ func ZZ_C12_datapath_total() {
 	ipType := []rpc.IPType{rpc.IPType_TypeVPCIP, rpc.IPType_TypeVPCENI, rpc.IPType_TypeENIMultiIP}[zz.Fork("iptype", 3)]
 	strip := types.VlanStripType(zz.OneOf("strip", "", string(types.VlanStripTypeFilter), string(types.VlanStripTypeVlan), "junk"))
 	trunk := zz.Bool("trunk")
+	// an earlier interface of the same ADD/CHECK (same process) may have had other flags: the selection has no memory
+	_ = getDatePath(ipType, types.VlanStripType(zz.OneOf("prev.strip", "", string(types.VlanStripTypeFilter), string(types.VlanStripTypeVlan))), zz.Bool("prev.trunk"))
 	dp := getDatePath(ipType, strip, trunk)
 	dp2 := getDatePath(ipType, strip, trunk)
 	zz.Assert(dp == dp2, "the datapath is determined solely by IP type, VLAN mode and trunking")
